@@ -1,5 +1,6 @@
 //! Common machinery for the lopdf property checks (see /verif/DESIGN.md §2).
 pub mod cmp;
+pub mod docgen;
 pub mod gen;
 pub mod objjson;
 pub mod refcmap;
@@ -8,6 +9,8 @@ pub mod refcrypt;
 pub mod refdate;
 pub mod rt;
 pub mod run;
+pub mod sink;
+pub mod strict;
 pub mod util;
 
 pub use run::{Mode, Run};
